@@ -8,6 +8,7 @@ package verifsys
 // driver, and talks to it over real DNS sockets and the real admin API.
 
 import (
+	"errors"
 	"bytes"
 	"encoding/json"
 	"fmt"
@@ -46,7 +47,14 @@ type sysUpstream struct {
 	delay   atomic.Int64 // max delay in microseconds; actual is uniform in [0, max]
 	rng     *rand.Rand
 	LogName bool
+	// slowDelay (microseconds) is how long an answer for a name that begins
+	// with "slow" is held back.
+	slowDelay atomic.Int64
 }
+
+// SetSlowDelay makes the upstream hold back its answers for names that begin
+// with "slow" for d.
+func (u *sysUpstream) SetSlowDelay(d time.Duration) { u.slowDelay.Store(int64(d / time.Microsecond)) }
 
 func sysStartUpstream(seed int64) (u *sysUpstream, err error) {
 	u = &sysUpstream{names: map[string]int{}, rng: rand.New(rand.NewSource(seed))}
@@ -90,6 +98,9 @@ func (u *sysUpstream) handle(w dns.ResponseWriter, req *dns.Msg) {
 		u.mu.Lock()
 		u.names[strings.ToLower(q.Name)]++
 		u.mu.Unlock()
+	}
+	if sd := u.slowDelay.Load(); sd > 0 && strings.HasPrefix(strings.ToLower(q.Name), "slow") {
+		time.Sleep(time.Duration(sd) * time.Microsecond)
 	}
 	if max := u.delay.Load(); max > 0 {
 		u.mu.Lock()
@@ -418,7 +429,15 @@ func sysQuery(in *sysInst, src string, tcp bool, name string, qtype uint16, time
 	} else {
 		c.Dialer = &net.Dialer{LocalAddr: &net.UDPAddr{IP: net.ParseIP(src)}, Timeout: timeout}
 	}
-	resp, _, err = c.Exchange(m, fmt.Sprintf("127.0.0.1:%d", in.DNSPort))
+	for attempt := 0; ; attempt++ {
+		resp, _, err = c.Exchange(m, fmt.Sprintf("127.0.0.1:%d", in.DNSPort))
+		// A failure to get a local port (other jobs on the machine use up the
+		// ephemeral range) happens before anything is sent; try again.
+		if err == nil || attempt >= 40 || !(errors.Is(err, syscall.EADDRINUSE) || errors.Is(err, syscall.EADDRNOTAVAIL)) {
+			break
+		}
+		time.Sleep(25 * time.Millisecond)
+	}
 
 	return resp, err
 }
